@@ -14,7 +14,9 @@ SYSTEMS = [("m,N", Fr("0.01"), Fr(1)), ("mm,N", Fr(10), Fr(1)), ("m,kN", Fr("0.0
            ("in,lbf", Fr(100, 254), Fr("0.2248089431")), ("ft,lbf", Fr(100, 3048), Fr("0.2248089431")), ("cm,kN", Fr(1), Fr("0.001")),
            ("mm,kN", Fr(10), Fr("0.001")),
            # far ends of the range: numbers that shrink under the code's absolute 1e-10 / six-decimal habits
-           ("100km,N", Fr("1e-7"), Fr(1)), ("cm,MN", Fr(1), Fr("1e-6")), ("km,GN", Fr("1e-5"), Fr("1e-9"))]
+           ("100km,N", Fr("1e-7"), Fr(1)), ("cm,MN", Fr(1), Fr("1e-6")), ("km,GN", Fr("1e-5"), Fr("1e-9")),
+           # ... and numbers that grow: coordinates of millions (micrometres, plant coordinates in a small unit)
+           ("um,N", Fr("1e4"), Fr(1)), ("um,uN", Fr("1e4"), Fr("1e6"))]
 
 
 def estr(x):
